@@ -80,9 +80,9 @@ static uint64_t opA(C& c, uint64_t k1, uint64_t k2)
 #elif METHOD == M_ERASE_RANGE
     return x_erase_range(c, e, 2);
 #elif METHOD == M_FIND_RANGE
-    { uint64_t n = x_find_range(c, e, 2, false, out, &ko); return n * 100 + out[0].ok * 10 + out[1].ok; }
+    { uint64_t n = x_find_range(c, e, 2, false, out, &ko); return n * 100 + out[0].ok * 10 + out[1].ok + 1000 * (out[0].ok ? out[0].val : 0) + 1000000 * (out[1].ok ? out[1].val : 0); }
 #elif METHOD == M_FIND_RANGE_FILL
-    { x_find_range_fill(c, e, 2, false, out, &ko); return out[0].ok * 10 + out[1].ok; }
+    { x_find_range_fill(c, e, 2, false, out, &ko); return out[0].ok * 10 + out[1].ok + 1000 * (out[0].ok ? out[0].val : 0) + 1000000 * (out[1].ok ? out[1].val : 0); }
 #elif METHOD == OP_CLEAN && T_HAS_CLEAN
     return c.clean_expired_values();
 #elif METHOD == OP_CLEAR && T_HAS_CLEAR
@@ -97,13 +97,24 @@ static uint64_t opA(C& c, uint64_t k1, uint64_t k2)
     x_find(c, k1, false, r); return r.ok;
 #endif
 }
+// logical thread B: kind 0 = observer (find_range of two keys with peek + size), kind 1 = writer (insert_range of the two
+// keys with fresh values), kind 2 = eraser (erase_range of the two keys); its own results are recorded in o
+static int g_bkind;
 static void opB(C& c, uint64_t k1, uint64_t k2, Obs& o)
 {
     Ev e[RMAX];
-    e[0].k = k1; e[1].k = k2;
+    for (int j = 0; j < RMAX; ++j) { e[j].op = 0; e[j].k = j == 0 ? k1 : k2; e[j].v = 900 + j; e[j].a = 3; e[j].pk = true; e[j].ttl = 1000000; e[j].now = 0; }
     Res out[RMAX]; bool ko = true;
-    x_find_range(c, e, 2, true, out, &ko);
-    for (int i = 0; i < 2; ++i) { o.b_has[i] = out[i].ok; o.b_val[i] = out[i].val; }
+    for (int i = 0; i < 2; ++i) { o.b_has[i] = false; o.b_val[i] = 0; }
+    if (g_bkind == 0)
+    {
+        x_find_range(c, e, 2, true, out, &ko);
+        for (int i = 0; i < 2; ++i) { o.b_has[i] = out[i].ok; o.b_val[i] = out[i].val; }
+    }
+    else if (g_bkind == 1)
+        o.b_val[0] = x_insert_range(c, e, 2, 3);
+    else
+        o.b_val[0] = x_erase_range(c, e, 2);
     o.b_size = c.size();
 }
 static void final_probe(C& c, Obs& o)
@@ -115,6 +126,7 @@ static void final_probe(C& c, Obs& o)
 int main()
 {
     int checked = 0;
+    for (g_bkind = 0; g_bkind < 3; ++g_bkind)
     for (int m = 0; m <= HCAP; ++m)
         for (uint64_t k1 = 0; k1 < NK; ++k1)
             for (uint64_t k2 = 0; k2 < NK; ++k2)
@@ -139,9 +151,9 @@ int main()
                             ++checked;
                             if (!same(n, ab) && !same(n, ba))
                             {
-                                printf("NONLINEARIZABLE method=%d prefix=%d A(keys %llu,%llu) B=find_range(%llu,%llu)+size nested before acquisition %d of A: "
+                                printf("NONLINEARIZABLE method=%d prefix=%d A(keys %llu,%llu) B[kind %d: 0 find_range+size, 1 insert_range, 2 erase_range](%llu,%llu) nested before acquisition %d of A: "
                                        "A=%llu B=(%d,%d,size %zu) final size %zu; sequential A;B gives B=(%d,%d,size %zu), B;A gives B=(%d,%d,size %zu)\n",
-                                       METHOD, m, (unsigned long long)k1, (unsigned long long)k2, (unsigned long long)b1, (unsigned long long)b2, j,
+                                       METHOD, m, (unsigned long long)k1, (unsigned long long)k2, g_bkind, (unsigned long long)b1, (unsigned long long)b2, j,
                                        (unsigned long long)n.a_res, n.b_has[0], n.b_has[1], n.b_size, n.fsize, ab.b_has[0], ab.b_has[1], ab.b_size,
                                        ba.b_has[0], ba.b_has[1], ba.b_size);
                                 return 1;
